@@ -3,15 +3,19 @@
 copies /tmp/seed/<ID>/out/<x>/ to /verif/seeded/<ID><x>/ and writes meta.json"""
 import sys, os, shutil, json
 pid, x, pkg, caught, needs, notes = sys.argv[1:7]
-src = "/tmp/seed/%s/out/%s" % (pid, x)
-dst = "/verif/seeded/%s%s" % (pid, x)
+base = os.environ.get("SEED_BASE", "/tmp/seed")
+name = {"a": "c", "b": "d"}[x] if base.endswith("seed2") else x
+src = "%s/%s/out/%s" % (base, pid, x)
+dst = "/verif/seeded/%s%s" % (pid, name)
+x = name
 os.makedirs(dst, exist_ok=True)
 for f in ("patch.diff", "demo_test.go", "README.md"):
     if os.path.exists(os.path.join(src, f)):
         shutil.copy(os.path.join(src, f), os.path.join(dst, f))
-for f in os.listdir(src):
-    if f.endswith(".go") and f != "demo_test.go":
-        shutil.copy(os.path.join(src, f), os.path.join(dst, f))
+for root, dirs, files in os.walk(src):
+    for f in files:
+        if f.endswith(".go") and f != "demo_test.go":
+            shutil.copy(os.path.join(root, f), os.path.join(dst, f))
 json.dump({
     "property": pid, "origin": "independent sub-agent given only the property text and a scratch worktree",
     "needs_to_manifest": needs, "demo_package_dir": pkg,
